@@ -408,7 +408,7 @@ def accessor_table(u, fn):
         if kind in ("copied", "cloned"):
             return field, K, list(range(256))
         if kind == "map" and len(inner[2]) == 2 and inner[2][1][0] == "agg" and str(inner[2][1][1]).startswith("closure "):
-            cn = [k for k in u.bodies if mir.norm(k) == str(inner[2][1][1])[len("closure "):]]
+            cn = [k for k in u.bodies if mir.norm(k) == mir.norm(str(inner[2][1][1])[len("closure "):])]
             if len(cn) != 1:
                 return None
             f = _byte_fn(sym.expr_local(u.bodies[cn[0]], 0), 2)
